@@ -342,13 +342,13 @@ func c05StanzaEncoder(c *cx) {
 		switch local {
 		case "id":
 			nApp["id"]++
-			c.dom(id, f, as, "append of the id attribute", append([]string{"!local:"+flagName["id"]+"<bool>"}, guard...))
-			c.onlyFacts(id, f, as, "append of the id attribute", append([]string{"!local:"+flagName["id"]+"<bool>", "!rangenext(*)"}, guard...))
+			c.dom(id, f, as, "append of the id attribute", append([]string{"!local:" + flagName["id"] + "<bool>"}, guard...))
+			c.onlyFacts(id, f, as, "append of the id attribute", append([]string{"!local:" + flagName["id"] + "<bool>", "!rangenext(*)"}, guard...))
 			c.r.Check(id, f, "id attribute value", "K: a missing id is filled from attr.RandomID()", as.Pos(), val != nil && f.Norm(val, &pt) == "internal/attr.RandomID()", "id value is "+f.Norm(val, &pt))
 		case "from":
 			nApp["from"]++
-			c.dom(id, f, as, "append of the from attribute", append([]string{"!local:"+flagName["from"]+"<bool>", "!eq(jid.JID.String[recv.from](),\"\")"}, guard...))
-			c.onlyFacts(id, f, as, "append of the from attribute", append([]string{"!local:"+flagName["from"]+"<bool>", "!eq(jid.JID.String[recv.from](),\"\")", "!rangenext(*)"}, guard...))
+			c.dom(id, f, as, "append of the from attribute", append([]string{"!local:" + flagName["from"] + "<bool>", "!eq(jid.JID.String[recv.from](),\"\")"}, guard...))
+			c.onlyFacts(id, f, as, "append of the from attribute", append([]string{"!local:" + flagName["from"] + "<bool>", "!eq(jid.JID.String[recv.from](),\"\")", "!rangenext(*)"}, guard...))
 			c.r.Check(id, f, "from attribute value", "K: the from attribute is the session's own address", as.Pos(), val != nil && f.Norm(val, &pt) == "jid.JID.String[recv.from]()", "from value is "+f.Norm(val, &pt))
 		}
 		return true
@@ -453,9 +453,9 @@ func c05StanzaEncoder(c *cx) {
 	}
 	// name tables
 	want := map[string]string{
-		"isStanzaEmptySpace": `and(or(eq(p0.Local,"iq") | eq(p0.Local,"message") | eq(p0.Local,"presence")) & or(eq(p0.Space,"") | eq(p0.Space,stanza.NSClient) | eq(p0.Space,stanza.NSServer)))`,
-		"isIQEmptySpace":     `and(eq(p0.Local,"iq") & or(eq(p0.Space,"") | eq(p0.Space,stanza.NSClient) | eq(p0.Space,stanza.NSServer)))`,
-		"isIQ":               `and(eq(p0.Local,"iq") & or(eq(p0.Space,stanza.NSClient) | eq(p0.Space,stanza.NSServer)))`,
+		"isStanzaEmptySpace":   `and(or(eq(p0.Local,"iq") | eq(p0.Local,"message") | eq(p0.Local,"presence")) & or(eq(p0.Space,"") | eq(p0.Space,stanza.NSClient) | eq(p0.Space,stanza.NSServer)))`,
+		"isIQEmptySpace":       `and(eq(p0.Local,"iq") & or(eq(p0.Space,"") | eq(p0.Space,stanza.NSClient) | eq(p0.Space,stanza.NSServer)))`,
+		"isIQ":                 `and(eq(p0.Local,"iq") & or(eq(p0.Space,stanza.NSClient) | eq(p0.Space,stanza.NSServer)))`,
 		"isMessageEmptySpace":  `and(eq(p0.Local,"message") & or(eq(p0.Space,"") | eq(p0.Space,stanza.NSClient) | eq(p0.Space,stanza.NSServer)))`,
 		"isPresenceEmptySpace": `and(eq(p0.Local,"presence") & or(eq(p0.Space,"") | eq(p0.Space,stanza.NSClient) | eq(p0.Space,stanza.NSServer)))`,
 	}
